@@ -401,6 +401,13 @@ func init() {
 					} else if len(kv.S) > kop.N {
 						continue
 					}
+					keyTrim := kv
+					if kv.K == 's' {
+						keyTrim = &Val{K: 's', S: bytes.TrimRight(kv.S, " ")}
+					}
+					if _, registered := lookupEntry(schema.Tables[op.Tbl], keyTrim); registered {
+						continue // masked / trimmed onto a registered key
+					}
 					bad := g.msg(t.ID, true, 0)
 					bad.Fs[op.Key] = kv
 					if wire, ok := renderPinned(bad); ok {
